@@ -418,7 +418,7 @@ def run(model, col, tier):
                 if seq:
                     col.check(depth == 0, "R07.6", f"{GEN}::{hname} stack template", f"{seq} is stack-neutral", f"emitted template {seq} changes the stack depth by {depth}", GEN, h)
             else:
-                val = any(" ".join(unparse(e.node).split()) == "ri.Value" and e.val for e in evs if e.kind == "cond")
+                val = any(" ".join(unparse(e.node).split()) == f"{h.args.args[1].arg}.Value" and e.val for e in evs if e.kind == "cond")
                 col.check(seq[-1:] == ["return"] and depth == (1 if val else 0), "R07.6", f"{GEN}::{hname} stack template [{'value' if val else 'void'}]",
                           f"{seq}", f"emitted template {seq} (depth {depth}) does not push exactly the result before `return`", GEN, h)
     # ---------------- R07.7 ------------------------------------------------------
